@@ -11,7 +11,8 @@ Ops (all prefixed `uni`):
   uni_hex  <w> <units>                   HexStringToNumber<SizeT32>(units, |units|)
   uni_dec  <w> <units>                   spec decoder: code points or `invalid`
   uni_orc  <w> <mode> <lo> <hi> <groups> C20 oracle on implementation output: `ok` or `bad <cp>`
-Modes: d = direct ToUTF; l = `\uxxxx"` lower hex; u = `\UXXXX` upper hex, ended by length;
+Modes: d = direct ToUTF; l = `\uxxxx"` lower hex; u = `\uXXXX` upper hex, ended by length;
+U = `\UXXXX"` (capital U is accepted by the routine; not RFC 8259, correspondence only);
 c = inside a longer string (pre/post chosen from cp), quote-terminated, hex case from cp.
 -/
 
@@ -24,7 +25,8 @@ def ctxPost (cp : Nat) : List Nat := (List.range (cp / 4 % 3)).map (· + 120)
 /-- The input string of a mode and the text it denotes (as code points). -/
 def modeInput (mode : String) (cp : Nat) : Option (List Nat × List Nat) :=
   if mode == "l" then some (jsonEscape false false cp ++ [34], [cp])
-  else if mode == "u" then some (jsonEscape true true cp, [cp])
+  else if mode == "u" then some (jsonEscape false true cp, [cp])
+  else if mode == "U" then some (jsonEscape true true cp ++ [34], [cp])
   else if mode == "c" then
     some (ctxPre cp ++ jsonEscape false (cp % 2 == 1) cp ++ ctxPost cp ++ [34], ctxPre cp ++ [cp] ++ ctxPost cp)
   else none
